@@ -14,7 +14,7 @@ while read -r c subj; do
   case "$subj" in
     *"sighash memo cache"*) OWNER[$c]=C04 ;;
     *sign_with_random_k*) OWNER[$c]=C05 ;;
-    *SIGHASH_SINGLE*|*"SighashSignature::from_bytes"*|*hashSequence*|*remove_codeseparators*) OWNER[$c]=C15 ;;
+    *OP_NOTIF*|*SIGHASH_SINGLE*|*"SighashSignature::from_bytes"*|*hashSequence*|*remove_codeseparators*) OWNER[$c]=C15 ;;
     *digest-taking*|*"AES CTR"*|*"TxIn/TxOut readers"*|*"Script::from_bytes rejects"*|*ECIESCiphertext::from_bytes*|*from_wif*|*from_compact_bytes*|*to_decompressed*) OWNER[$c]=C09 ;;
     *interpreter*|*OP_*|*CHECKSIG*|*conditional*|*Interpreter*|*verify_hashbuf*) OWNER[$c]=C16 ;;
     *) OWNER[$c]="${FIX_OWNER:-}" ;;
